@@ -50,7 +50,7 @@ class ContentAnalysis(BufferAnalysis):
                 self.names.append(self.dvar(fr, v))
                 self.names.append(self.evar(fr, v))
         self.names.append('D:' + CUR)
-        self.names.extend(['E:' + CUR, 'D:@state', 'D:@lastfn', 'E:@lastfn', 'NX', 'NO', 'KS', 'Wm', 'Wq', 'N0c', 'N0l', 'N0h', 'N1c', 'N1l', 'N1h', 'TT'])
+        self.names.extend(['E:' + CUR, 'D:@state', 'D:@lastfn', 'E:@lastfn', 'NX', 'NO', 'KS', 'Wm', 'Wq', 'N0c', 'N0l', 'N0h', 'N1c', 'N1l', 'N1h', 'TT', 'DTK'])
         self.kvars = {}
         for fr in self.frames.values():
             for b, L in fr.bufenv.items():
@@ -211,12 +211,17 @@ class ContentAnalysis(BufferAnalysis):
             z.assign(K, '0', -1)
         fl.pop('ttop', None)
         z.forget('TT')
+        fl.pop('first', None)
+        z.forget('DTK')
+        if not user:
+            # H3 for a well-formed chart: the target of an initial transition is a proper descendant of the state that takes it; that state (depth DTK >= 1 on
+            # the new target's chain) is already active, so entering starts just below it
+            z.le('0', 'DTK', -1)
+            fl['first'] = '1'
         if not user and fl.get('lastvar') and fl.get('lastvar') != CUR:
-            # H3 for a well-formed chart: the target of an initial transition is a proper descendant of the state that takes it
             base = fl['lastvar']
             fl['o:' + base] = 'T'
-            z.forget('D:' + base)
-            z.le('0', 'D:' + base, -1)         # depth >= 1
+            z.assign('D:' + base, 'DTK', 0)
         if self.track_source:
             if user and fl.get('s:@lastfn') == 'S':
                 fl['ks'] = '1'
@@ -243,6 +248,12 @@ class ContentAnalysis(BufferAnalysis):
                 if sigs == {'ENTRY'}:
                     ok = hv[0] is not None
                     self.rec('O5-content', fr, c, 'OK' if ok else 'FAIL(slot content unknown)', '%s %s' % (fl, z.show()))
+                    if fl.get('first') == '1':
+                        # the first entry after an initial transition (or after start): the state just below the one that took it
+                        T = hv[0]
+                        okf = T is not None and z.entails(T[0], 'DTK', -1 - T[1]) and z.entails('DTK', T[0], T[1] + 1)        # d == DTK - 1
+                        self.rec('O5-first', fr, c, 'OK' if okf else 'FAIL(entry does not start just below the state that took the initial transition)', '%s %s' % (fl, z.show()))
+                        fl.pop('first', None)
                 if sigs == {'INIT'}:
                     # the initial transition is asked of the state that has just been entered last: the current target itself
                     T = hv[0]
@@ -690,6 +701,8 @@ class ContentAnalysis(BufferAnalysis):
             # start_at leaves state.fun on the state enclosing everything (ORDER.start_at): a proper ancestor of the start state
             fl['o:@state'] = 'T'
             z.le('0', 'D:@state', -1)
+            z.assign('DTK', 'D:@state', 0)
+            fl['first'] = '1'
         if self.track_source:
             # between steps the cursor is the current state (HSM-CURSOR.I1): both are depth 0 of the active chain; nothing exited yet
             fl['s:' + CUR] = 'S'
